@@ -16,6 +16,7 @@ type SimCtx struct {
 	done        chan struct{}
 	fired       bool
 	pollsAtFire int
+	byPoll      bool
 	onFire      func()
 }
 
@@ -31,6 +32,7 @@ func (c *SimCtx) Done() <-chan struct{} {
 	c.mu.Lock()
 	c.polls++
 	if !c.fired && c.fireAt > 0 && c.polls >= c.fireAt {
+		c.byPoll = true
 		c.fireLocked()
 	}
 	c.mu.Unlock()
@@ -67,6 +69,13 @@ func (c *SimCtx) Fire() {
 
 // OnFire registers a callback run (with the lock held, keep it trivial) at the instant of firing.
 func (c *SimCtx) OnFire(f func()) { c.onFire = f }
+
+// FiredByPoll tells whether the context fired at its planned poll (i.e. while the engine was running).
+func (c *SimCtx) FiredByPoll() bool {
+	c.mu.Lock()
+	defer c.mu.Unlock()
+	return c.byPoll
+}
 
 func (c *SimCtx) Fired() bool {
 	c.mu.Lock()
